@@ -181,6 +181,7 @@ AbortOnQuota ==
 \* next GetRoot).
 AbandonRanges ==
   /\ pc = "run" /\ why = "" /\ gen = sth /\ out # {} /\ hold = {} /\ \A b \in bag : b.n = 0
+  /\ (root = 0 \/ proved)                    \* not on top of another suspicion (SkipGate, an unverified proof)
   /\ out' = {} /\ bag' = {}
   /\ UNCHANGED <<cfg, dest, hold, envv, restarts, faults, pass, calls, hist, ctl, verified, flags, l>>
 
